@@ -123,8 +123,8 @@ func (h *indexedBinary[K, V]) IsEmpty() bool {
 
 // Insert adds a new key-value pair to the heap with an associated index.
 func (h *indexedBinary[K, V]) Insert(i int, key K, val V) bool {
-	// ContainsIndex validates the index too.
-	if h.ContainsIndex(i) {
+	// The index must be valid and not already on the heap.
+	if i < 0 || i >= len(h.kvs) || h.ContainsIndex(i) {
 		return false
 	}
 
@@ -248,7 +248,7 @@ func (h *indexedBinary[K, V]) ContainsIndex(i int) bool {
 
 // ContainsKey returns true if a given key is on the heap.
 func (h *indexedBinary[K, V]) ContainsKey(key K) bool {
-	for i := 0; i < h.n; i++ {
+	for i := range h.kvs {
 		if h.kvs[i] != nil && h.cmpKey(h.kvs[i].Key, key) == 0 {
 			return true
 		}
@@ -259,7 +259,7 @@ func (h *indexedBinary[K, V]) ContainsKey(key K) bool {
 
 // ContainsValue returns true if a given value is on the heap.
 func (h *indexedBinary[K, V]) ContainsValue(val V) bool {
-	for i := 0; i < h.n; i++ {
+	for i := range h.kvs {
 		if h.kvs[i] != nil && h.eqVal(h.kvs[i].Val, val) {
 			return true
 		}
